@@ -1121,4 +1121,207 @@ theorem codeFromTree_len (cfg : Cfg) (root : GoNode) : codeLen (codeFromTree cfg
   simp [codeFromTree, codeLen_append, emitNode_size]; omega
 
 
+section bridge
+open RegexVerif.Code
+/-! ### from the instruction list to the code array -/
+
+theorem flatten_getElem_op (pre : Code) (i : Instr) (post : Code) :
+    (flatten (pre ++ i :: post))[codeLen pre]? = some (i.op : Int) := by
+  rw [flatten_append, List.getElem?_append_right (by rw [flatten_length]; omega)]
+  simp [flatten_length, flatten, Instr.words]
+
+theorem flatten_getElem_arg (pre : Code) (i : Instr) (post : Code) (k : Nat) (hk : k < i.args.length) :
+    (flatten (pre ++ i :: post))[codeLen pre + k + 1]? = i.args[k]? := by
+  rw [flatten_append, List.getElem?_append_right (by rw [flatten_length]; omega)]
+  simp only [flatten_length, flatten, Instr.words, List.cons_append]
+  rw [show codeLen pre + k + 1 - codeLen pre = k + 1 by omega]
+  simp only [List.getElem?_cons_succ]
+  rw [List.getElem?_append_left hk]
+
+def progOf (c : Code) (strings : Array (List Nat)) (nsets tc cs : Nat) (caps : List (Int × Int)) (rtl : Bool) : Prog :=
+  { codes := (flatten c).toArray, strings := strings, nsets := nsets, trackcount := tc, capsize := cs, caps := caps, rtl := rtl }
+
+theorem wordAt_progOf (pre : Code) (i : Instr) (post : Code) (s n t c cp r) :
+    (progOf (pre ++ i :: post) s n t c cp r).wordAt? (codeLen pre) = some (decode i.op) := by
+  simp only [Prog.wordAt?, progOf, List.getElem?_toArray, flatten_getElem_op]
+
+theorem operand_progOf (pre : Code) (i : Instr) (post : Code) (s n t c cp r) (k : Nat) (hk : k < i.args.length) :
+    (progOf (pre ++ i :: post) s n t c cp r).operand? (codeLen pre) k = i.args[k]? := by
+  simp only [Prog.operand?, progOf, List.getElem?_toArray]
+  exact flatten_getElem_arg pre i post k hk
+
+theorem decode_op (w : Nat) : (decode w).op = w % (flagMask + 1) := rfl
+
+theorem length_le_codeLen : ∀ c : Code, c.length ≤ codeLen c
+  | [] => by simp
+  | i :: r => by have := length_le_codeLen r; simp only [List.length_cons, codeLen_cons]; omega
+
+theorem boundaries_go (s n t cs cp r) : ∀ (rest pre : Code) (fuel : Nat) (acc : List Nat),
+    (∀ i ∈ rest, i.arityOk = true) → rest.length ≤ fuel →
+    Prog.boundaries.go (progOf (pre ++ rest) s n t cs cp r) fuel (codeLen pre) acc =
+      some (acc.reverse ++ istarts (codeLen pre) rest)
+  | [], pre, fuel, acc, _, _ => by
+    simp only [List.append_nil]
+    have hsz : (progOf pre s n t cs cp r).codes.size = codeLen pre := by
+      simp [progOf, flatten_length]
+    cases fuel <;> simp [Prog.boundaries.go, hsz, istarts]
+  | i :: rest, pre, 0, acc, _, hf => by simp at hf
+  | i :: rest, pre, fuel + 1, acc, h, hf => by
+    have hsz : (progOf (pre ++ i :: rest) s n t cs cp r).codes.size = codeLen pre + (1 + i.args.length + codeLen rest) := by
+      simp [progOf, flatten_length, codeLen_append]
+    have hi : i.arityOk = true := h i (by simp)
+    simp only [Instr.arityOk, beq_iff_eq] at hi
+    have ih := boundaries_go s n t cs cp r rest (pre ++ [i]) fuel (codeLen pre :: acc)
+      (fun j hj => h j (by simp [hj])) (by simpa using hf)
+    have hpre : codeLen (pre ++ [i]) = codeLen pre + (1 + i.args.length) := by simp [codeLen_append]
+    rw [hpre, List.append_assoc, List.singleton_append] at ih
+    unfold Prog.boundaries.go
+    rw [wordAt_progOf]
+    simp only [decode_op]
+    have hop : i.op % (flagMask + 1) = i.opcode := rfl
+    rw [hop, hi]
+    simp only [hsz, ih, istarts]
+    have hne : ¬ (codeLen pre = codeLen pre + (1 + i.args.length + codeLen rest)) := by omega
+    simp [hne]
+
+theorem boundaries_progOf (c : Code) (s n t cs cp r) (h : ∀ i ∈ c, i.arityOk = true) :
+    (progOf c s n t cs cp r).boundaries = some (istarts 0 c) := by
+  have := boundaries_go s n t cs cp r c [] (progOf c s n t cs cp r).codes.size [] h
+    (by simp only [progOf, List.size_toArray, flatten_length]; exact length_le_codeLen c)
+  simpa [Prog.boundaries] using this
+
+
+theorem mem_istarts_split : ∀ (c : Code) (a pc : Nat), pc ∈ istarts a c →
+    ∃ pre i post, c = pre ++ i :: post ∧ pc = a + codeLen pre
+  | [], a, pc, h => by simp [istarts] at h
+  | i :: r, a, pc, h => by
+    simp only [istarts, List.mem_cons] at h
+    rcases h with h | h
+    · exact ⟨[], i, r, by simp, by simp [h]⟩
+    · obtain ⟨pre, j, post, e, hp⟩ := mem_istarts_split r _ pc h
+      exact ⟨i :: pre, j, post, by simp [e], by simp only [codeLen_cons]; omega⟩
+
+/-- opcodes whose operands `instrOk` reads have them -/
+theorem operand_ops_size : ∀ op, op < 64 → (jumpOps.contains op = true ∨ specialOps.contains op = true) →
+    2 ≤ (sizeOf? op).getD 0 := by decide
+theorem capturemark_size : sizeOf? opCapturemark = some 3 := by decide
+
+theorem instrOk_of_local (pre : Code) (i : Instr) (post : Code) (s : Array (List Nat)) (n t cs : Nat) (cp r) (bs : List Nat)
+    (hl : i.localOk s.size n cs = true) (hj : ∀ x ∈ i.targets, ∃ k ∈ bs, x = (k : Int)) :
+    instrOk (progOf (pre ++ i :: post) s n t cs cp r) bs (codeLen pre) = true := by
+  have hlt : i.opcode < 64 := Nat.mod_lt _ (by decide)
+  have hop0' := fun h => operand_progOf pre i post s n t cs cp r 0 h
+  have hop1' := fun h => operand_progOf pre i post s n t cs cp r 1 h
+  simp only [Instr.localOk, Bool.and_eq_true] at hl
+  obtain ⟨⟨⟨⟨ha, hm⟩, hs⟩, hr⟩, hc⟩ := hl
+  replace ha : sizeOf? i.opcode = some (1 + i.args.length) := by simpa [Instr.arityOk] using ha
+  have hm' : (i.opcode == opMulti) = true → inRange i.args[0]? s.size = true := by
+    intro h; rw [if_pos h] at hm; exact hm
+  have hs' : setOps.contains i.opcode = true → inRange i.args[0]? n = true := by
+    intro h; rw [if_pos h] at hs; exact hs
+  have hr' : (i.opcode == opRef || i.opcode == opTestref) = true → inRange i.args[0]? cs = true := by
+    intro h; rw [if_pos h] at hr; exact hr
+  have hc' : (i.opcode == opCapturemark) = true →
+      (if (i.args[1]? == some (-1)) = true then inRange i.args[0]? cs
+       else (i.args[0]? == some (-1) || inRange i.args[0]? cs) && inRange i.args[1]? cs) = true := by
+    intro h; rw [if_pos h] at hc; exact hc
+  unfold instrOk
+  rw [wordAt_progOf]
+  simp only [Bool.and_eq_true]
+  have harg : (jumpOps.contains (i.opcode) = true ∨ specialOps.contains i.opcode = true) →
+      1 ≤ i.args.length := by
+    intro h
+    have := operand_ops_size _ hlt h
+    rw [ha] at this; simp only [Option.getD_some] at this; omega
+  refine ⟨⟨⟨⟨?_, ?_⟩, ?_⟩, ?_⟩, ?_⟩
+  · by_cases hjmp : jumpOps.contains (decode i.op).op = true
+    · rw [if_pos hjmp]
+      have hjmp' : jumpOps.contains i.opcode = true := hjmp
+      have h1 := harg (Or.inl hjmp')
+      rw [hop0' h1]
+      obtain ⟨x, rest, hx⟩ : ∃ x rest, i.args = x :: rest := by
+        cases hargs : i.args with
+        | nil => simp [hargs] at h1
+        | cons x rest => exact ⟨x, rest, rfl⟩
+      have hisj : isJump i.op = true := hjmp'
+      obtain ⟨k, hk, e⟩ := hj x (by simp [Instr.targets, hisj, hx])
+      simp only [hx, List.getElem?_cons_zero, e]
+      show bs.contains k = true
+      simpa using hk
+    · rw [if_neg hjmp]
+  · by_cases h : ((decode i.op).op == opMulti) = true
+    · have h' : (i.opcode == opMulti) = true := h
+      have : specialOps.contains i.opcode = true := by rw [beq_iff_eq.1 h']; decide
+      rw [if_pos h, hop0' (harg (Or.inr this))]; exact hm' h'
+    · rw [if_neg h]
+  · by_cases h : setOps.contains (decode i.op).op = true
+    · have h' : setOps.contains i.opcode = true := h
+      have : specialOps.contains i.opcode = true := by
+        simp only [specialOps, List.contains_eq_mem, List.mem_append, decide_eq_true_eq] at h' ⊢
+        exact Or.inl (Or.inr h')
+      rw [if_pos h, hop0' (harg (Or.inr this))]; exact hs' h'
+    · rw [if_neg h]
+  · by_cases h : ((decode i.op).op == opRef || (decode i.op).op == opTestref) = true
+    · have h' : (i.opcode == opRef || i.opcode == opTestref) = true := h
+      have : specialOps.contains i.opcode = true := by
+        have h'' := h'
+        simp only [Bool.or_eq_true, beq_iff_eq] at h''
+        rcases h'' with h'' | h'' <;> (rw [h'']; decide)
+      rw [if_pos h, hop0' (harg (Or.inr this))]; exact hr' h'
+    · rw [if_neg h]
+  · by_cases h : ((decode i.op).op == opCapturemark) = true
+    · have h' : (i.opcode == opCapturemark) = true := h
+      have hspec : specialOps.contains i.opcode = true := by rw [beq_iff_eq.1 h']; decide
+      have h2 : 2 ≤ i.args.length := by
+        rw [beq_iff_eq.1 h', capturemark_size] at ha; simp only [Option.some.injEq] at ha; omega
+      rw [if_pos h, hop0' (harg (Or.inr hspec)), hop1' (by omega)]
+      exact hc' h'
+    · rw [if_neg h]
+
+theorem wfProg_progOf (c : Code) (s : Array (List Nat)) (n t cs : Nat) (cp r)
+    (hl : ∀ i ∈ c, i.localOk s.size n cs = true) (hj : JOk (istarts 0 c) c)
+    (hfirst : c.head?.map Instr.opcode = some opLazybranch) (hlast : c.getLast?.map Instr.opcode = some opStop) :
+    wfProg (progOf c s n t cs cp r) = true := by
+  have ha : ∀ i ∈ c, i.arityOk = true := by
+    intro i hi
+    have := hl i hi
+    simp only [Instr.localOk, Bool.and_eq_true] at this
+    exact this.1.1.1.1
+  simp only [wfProg, boundaries_progOf c s n t cs cp r ha, Bool.and_eq_true]
+  refine ⟨⟨?_, ?_⟩, ?_⟩
+  · rw [List.all_eq_true]
+    intro pc hpc
+    obtain ⟨pre, i, post, e, hp⟩ := mem_istarts_split c 0 pc hpc
+    subst e
+    simp only [Nat.zero_add] at hp
+    subst hp
+    exact instrOk_of_local pre i post s n t cs cp r _ (hl i (by simp)) (hj i (by simp))
+  · cases c with
+    | nil => simp at hfirst
+    | cons i rest =>
+      simp only [List.head?_cons, Option.map_some, Option.some.injEq] at hfirst
+      have := wordAt_progOf [] i rest s n t cs cp r
+      simp only [codeLen_nil, List.nil_append] at this
+      rw [this]
+      simp only [Option.map_some, decode_op]
+      have hop : i.op % (flagMask + 1) = i.opcode := rfl
+      rw [hop, hfirst]; rfl
+  · rcases List.eq_nil_or_concat c with hnil | ⟨pre, i, e⟩
+    · subst hnil; simp at hlast
+    · rw [List.concat_eq_append] at e
+      subst e
+      simp at hlast
+      have hst : istarts 0 (pre ++ [i]) = starts 0 pre := istarts_snoc pre i 0
+      have hlastpos : (starts 0 pre).getLast? = some (codeLen pre) := by
+        rw [starts_eq_istarts]; simp
+      rw [hst, hlastpos]
+      show (Option.map (fun x => x.op) ((progOf (pre ++ [i]) s n t cs cp r).wordAt? (codeLen pre)) == some opStop) = true
+      rw [wordAt_progOf pre i [] s n t cs cp r]
+      simp only [Option.map_some, decode_op]
+      have hop : i.op % (flagMask + 1) = i.opcode := rfl
+      rw [hop, hlast]; rfl
+
+
+end bridge
+
 end RegexVerif.Writer
